@@ -868,16 +868,22 @@ pub fn format(input: &str, opts: &FormatOptions) -> Result<String, SnippetBuilde
 	if !errors.is_empty() {
 		let mut builder = hi_doc::SnippetBuilder::new(input);
 		for error in errors {
-			builder
-				.error(hi_doc::Text::fragment(
-					format!("{:?}", error.error),
-					Formatting::default(),
-				))
-				.range(
-					error.range.start().into()
-						..=(usize::from(error.range.end()) - 1).max(error.range.start().into()),
-				)
-				.build();
+			let annotation = builder.error(hi_doc::Text::fragment(
+				format!("{:?}", error.error),
+				Formatting::default(),
+			));
+			// Errors reported at the end of input (or for an empty input) have an empty range
+			// positioned after the last byte, clamp it into the text.
+			let Some(last) = input.len().checked_sub(1) else {
+				annotation.build();
+				continue;
+			};
+			let start = usize::from(error.range.start()).min(last);
+			let end = usize::from(error.range.end())
+				.saturating_sub(1)
+				.max(start)
+				.min(last);
+			annotation.range(start..=end).build();
 		}
 		// let snippet = builder.build();
 		return Err(builder);
